@@ -209,7 +209,7 @@ func TestC01(t *testing.T) {
 		AltPatFree: !rec.KnownClass("C01/stale-variable-in-destructuring-alternative")}
 	progs := gen.Program(conf)
 	inputs := inputGen()
-	rec.Rapid(t, "core", rec.Scale(200000, 6000000), func(t *rapid.T) {
+	rec.Rapid(t, "core", rec.Scale(120000, 6000000), func(t *rapid.T) {
 		p := progs.Draw(t, "prog")
 		in := inputs.Draw(t, "input")
 		c := progCase{Query: p.Src, Input: univ.V{X: in}, Features: p.Features}
